@@ -384,6 +384,9 @@ partial def loop (h : IO.FS.Stream) (out : IO.FS.Stream) : IO Unit := do
   else if line.startsWith "F " then
     out.putStrLn (fVerdict ((line.splitOn " ").filter (· ≠ "")))
     loop h out
+  else if line.startsWith "N " then
+    out.putStrLn (nVerdict ((line.splitOn " ").filter (· ≠ "")))
+    loop h out
   else if line.startsWith "K " then
     out.putStrLn (kLineVerdict ((line.splitOn " ").filter (· ≠ "")))
     loop h out
